@@ -237,6 +237,8 @@ class ExprMixin:
 
     def assume_type(self, st, val, decl):
         V = self.w.V
+        if "Config" in decl and "ConfigT" not in decl.replace("ConfigType", "Config"):
+            st.terms.append(("cfg", V.r(val)))
         if decl not in ("any", "V"):
             st.assume(self.o.is_type(val, decl))
         st.assume(z3.Implies(V.is_ref(val), z3.And(V.r(val) > 0, V.r(val) <= st.alloc)))
